@@ -60,6 +60,7 @@ def _sk_counter():
     return _skc[0]
 
 
+CROSS = {"every": int(os.environ.get("PVC_CROSS_EVERY", "0") or 0), "seen": 0, "stats": {}}
 PORTFOLIO_CAP = 3
 _portfolio = {"n": 0}
 
@@ -110,6 +111,16 @@ def discharge(pc, goal, timeout_ms=10000):
     r = s.check()
     dt = time.time() - t0
     if r == z3.unsat:
+        if CROSS["every"]:
+            # thorough tier: every n-th discharged obligation is re-decided by two independent solver builds on the SMT-LIB
+            # text of the same query; a disagreement is a checker error, never a verdict
+            CROSS["seen"] += 1
+            if CROSS["seen"] % CROSS["every"] == 0:
+                for b in ("z3-4.8", "cvc5-1.0"):
+                    st2, out2, dt2 = smt.run_one(b, smt.write_query(s.to_smt2(), "cross"), 20)
+                    CROSS["stats"][b + ":" + ("agree" if st2 == "unsat" else st2)] = CROSS["stats"].get(b + ":" + ("agree" if st2 == "unsat" else st2), 0) + 1
+                    if st2 == "sat":
+                        raise CheckerError(f"solver disagreement: z3 5.1 says unsat, {b} says sat on a discharged obligation")
         return "discharged", "z3-5.1(api)", dt, None
     if r == z3.sat:
         return "failed", "z3-5.1(api)", dt, s.model()
